@@ -6,12 +6,14 @@
 package fakecluster
 
 import (
+	"context"
 	"fmt"
 	"sort"
 	"sync"
 
 	"k8s.io/apimachinery/pkg/apis/meta/v1/unstructured"
 	"k8s.io/apimachinery/pkg/runtime/schema"
+	"k8s.io/apimachinery/pkg/watch"
 )
 
 // Key identifies a stored object.
@@ -69,6 +71,84 @@ type Cluster struct {
 	LateReqs []*Req
 	// kind <-> resource
 	Kinds map[schema.GroupKind]schema.GroupVersionResource
+	// open WATCH streams (dynamic front end): every change of the store is sent to the streams of its resource
+	watches []*cwatch
+}
+
+// cwatch is one WATCH stream.  It starts with an ADDED event for every matching object of the store at the time the stream
+// was opened (no gap between a LIST and the WATCH that follows it), then carries the changes.
+type cwatch struct {
+	group, resource, ns string
+	ch                  chan watch.Event
+	mu                  sync.Mutex
+	stopped             bool
+}
+
+func (w *cwatch) Stop() {
+	w.mu.Lock()
+	defer w.mu.Unlock()
+	if !w.stopped {
+		w.stopped = true
+		close(w.ch)
+	}
+}
+func (w *cwatch) ResultChan() <-chan watch.Event { return w.ch }
+func (w *cwatch) push(t watch.EventType, o *unstructured.Unstructured) {
+	w.mu.Lock()
+	defer w.mu.Unlock()
+	if w.stopped {
+		return
+	}
+	select {
+	case w.ch <- watch.Event{Type: t, Object: o.DeepCopy()}:
+	default: // (the histories are far smaller than the buffer)
+	}
+}
+
+// notify: store lock held
+func (c *Cluster) notify(t watch.EventType, k Key, o *unstructured.Unstructured) {
+	for _, w := range c.watches {
+		if w.group == k.Group && w.resource == k.Resource && (w.ns == "" || w.ns == k.Namespace) {
+			w.push(t, o)
+		}
+	}
+}
+
+func (c *Cluster) addWatch(ctx context.Context, group, resource, ns string) watch.Interface {
+	c.mu.Lock()
+	defer c.mu.Unlock()
+	w := &cwatch{group: group, resource: resource, ns: ns, ch: make(chan watch.Event, 4096)}
+	var ks []Key
+	for k := range c.objs {
+		ks = append(ks, k)
+	}
+	sort.Slice(ks, func(i, j int) bool { return ks[i].String() < ks[j].String() })
+	for _, k := range ks {
+		if k.Group == group && k.Resource == resource && (ns == "" || k.Namespace == ns) {
+			w.push(watch.Added, c.objs[k])
+		}
+	}
+	c.watches = append(c.watches, w)
+	go func() {
+		<-ctx.Done()
+		w.Stop()
+	}()
+	return w
+}
+
+// ActiveWatches: WATCH streams nobody has stopped yet.
+func (c *Cluster) ActiveWatches() int {
+	c.mu.Lock()
+	defer c.mu.Unlock()
+	n := 0
+	for _, w := range c.watches {
+		w.mu.Lock()
+		if !w.stopped {
+			n++
+		}
+		w.mu.Unlock()
+	}
+	return n
 }
 
 func New() *Cluster {
@@ -130,6 +210,7 @@ func (c *Cluster) NewRun() {
 	c.mu.Lock()
 	defer c.mu.Unlock()
 	c.Log = nil
+	c.watches = nil
 	c.LateReqs = nil
 	c.mutIdx, c.InvLists = 0, 0
 	c.FailMut, c.FailReq = map[int]bool{}, nil
@@ -164,7 +245,13 @@ func (c *Cluster) Put(k Key, o *unstructured.Unstructured) *unstructured.Unstruc
 	if o.GetGeneration() == 0 {
 		o.SetGeneration(1)
 	}
+	_, had := c.objs[k]
 	c.objs[k] = o
+	if had {
+		c.notify(watch.Modified, k, o)
+	} else {
+		c.notify(watch.Added, k, o)
+	}
 	return o.DeepCopy()
 }
 
@@ -172,6 +259,9 @@ func (c *Cluster) Put(k Key, o *unstructured.Unstructured) *unstructured.Unstruc
 func (c *Cluster) Remove(k Key) {
 	c.mu.Lock()
 	defer c.mu.Unlock()
+	if o, ok := c.objs[k]; ok {
+		c.notify(watch.Deleted, k, o)
+	}
 	delete(c.objs, k)
 }
 
@@ -243,6 +333,7 @@ func (c *Cluster) doCreate(k Key, o *unstructured.Unstructured, dry bool) (*unst
 	o.SetResourceVersion("1")
 	if !dry {
 		c.objs[k] = o
+		c.notify(watch.Added, k, o)
 	}
 	return o.DeepCopy(), "ok"
 }
@@ -273,6 +364,7 @@ func (c *Cluster) doReplace(k Key, o *unstructured.Unstructured, dry bool) (*uns
 	}
 	if !dry {
 		c.objs[k] = n
+		c.notify(watch.Modified, k, n)
 	}
 	return n.DeepCopy(), "ok"
 }
@@ -291,8 +383,10 @@ func (c *Cluster) doDelete(k Key, precondUID string) string {
 	if c.Finalizer[k] {
 		now := metav1Now()
 		o.SetDeletionTimestamp(&now)
+		c.notify(watch.Modified, k, o)
 		return "ok"
 	}
+	c.notify(watch.Deleted, k, o)
 	delete(c.objs, k)
 	return "ok"
 }
